@@ -358,6 +358,13 @@ def rename_contract(c: FnContract, ren: dict) -> FnContract:
         r.old = _sub_names(r.old, ren)
         r.new = _sub_names(r.new, ren)
     c2.stubsig = _sub_names(c2.stubsig, ren)
+    c2.cells = [ren.get(x, x) for x in c2.cells]
+    for k in c2.closures.values():
+        k.after = _sub_names(k.after, ren)
+    for h in c2.hoists:
+        h.anchor = _sub_names(h.anchor, ren)
+        h.proof = _sub_names(h.proof, ren)
+        h.items = [(a_, _sub_names(b_, ren) if isinstance(b_, str) else b_, c_) for (a_, b_, c_) in h.items]
     return c2
 
 
